@@ -1383,6 +1383,9 @@ bool nthroot_mod(const Ptr<RCP<const Integer>> &root,
     prime_factor_multiplicities(prime_mul, *mod);
     std::vector<RCP<const Integer>> moduli;
     bool ret_val;
+    // only the residue class of `a` matters (`a` may be negative or >= mod)
+    integer_class a_red;
+    mp_fdiv_r(a_red, a->as_integer_class(), mod->as_integer_class());
 
     std::vector<RCP<const Integer>> rem;
     for (const auto &it : prime_mul) {
@@ -1390,7 +1393,7 @@ bool nthroot_mod(const Ptr<RCP<const Integer>> &root,
         mp_pow_ui(_mod, it.first->as_integer_class(), it.second);
         moduli.push_back(integer(std::move(_mod)));
         ret_val = _nthroot_mod_prime_power(
-            rem, a->as_integer_class(), n->as_integer_class(),
+            rem, a_red, n->as_integer_class(),
             it.first->as_integer_class(), it.second, false);
         if (not ret_val)
             return false;
@@ -1413,6 +1416,9 @@ void nthroot_mod_list(std::vector<RCP<const Integer>> &roots,
     prime_factor_multiplicities(prime_mul, *m);
     std::vector<RCP<const Integer>> moduli;
     bool ret_val;
+    // only the residue class of `a` matters (`a` may be negative or >= m)
+    integer_class a_red;
+    mp_fdiv_r(a_red, a->as_integer_class(), m->as_integer_class());
 
     std::vector<std::vector<RCP<const Integer>>> rem;
     for (const auto &it : prime_mul) {
@@ -1421,7 +1427,7 @@ void nthroot_mod_list(std::vector<RCP<const Integer>> &roots,
         moduli.push_back(integer(std::move(_mod)));
         std::vector<RCP<const Integer>> rem1;
         ret_val = _nthroot_mod_prime_power(
-            rem1, a->as_integer_class(), n->as_integer_class(),
+            rem1, a_red, n->as_integer_class(),
             it.first->as_integer_class(), it.second, true);
         if (not ret_val)
             return;
